@@ -99,6 +99,9 @@ func (c *corpus) addPEMBlock(b *pem.Block) {
 }
 
 func (c *corpus) addRawDER(b []byte) {
+	if len(b) > 64<<10 {
+		return
+	}
 	n, rest, err := der.Parse(b)
 	if err != nil || len(rest) != 0 {
 		return
